@@ -205,6 +205,9 @@ def run(ctx):
         hbody = cb.reach([hl[0].id], avoid=[t for t, lab in cb.succ[hl[0].id] if lab == ("iter", False)])
         ok = rz[0].id not in hbody and all(hl[0].id in cb.reach([e.id]) and cb.raise_exit.id not in cb.reach([e.id], avoid=[hl[0].id])
                                            for e in cb.nodes if e.kind == "except")
+    if ok:
+        hs = [e for e in cb.nodes if e.kind == "except"]
+        ok = len(hs) >= 2 and all(e.stmt.type is None or norm(e.stmt.type) in ("Exception", "BaseException") for e in hs)
     r.check(ok, "%s#every-host-then-unavailable" % sb.qname, "the unavailable error can be raised before every bootstrap host was tried",
             where(sb, sb.node), "first bootstrap host down: client unusable although others are up")
 
@@ -257,6 +260,9 @@ MUTANTS = [
      "new": "                    e,\n                )\n                raise\n\n        # The request was not handled", "expect": "C07.R7"},
     {"id": "bootstrap-raise-in-loop", "file": "client.py", "old": "                log.debug(\"%s: bootstrap connect to %s:%s -> %s\", self, host, port, e)\n                continue",
      "new": "                log.debug(\"%s: bootstrap connect to %s:%s -> %s\", self, host, port, e)\n                raise", "expect": "C07.R7"},
+    {"id": "bootstrap-connect-handler-narrowed", "file": "client.py",
+     "old": "            except Exception as e:\n                log.debug(\"%s: bootstrap connect to %s:%s -> %s\", self, host, port, e)",
+     "new": "            except OSError as e:\n                log.debug(\"%s: bootstrap connect to %s:%s -> %s\", self, host, port, e)", "expect": "C07.R7", "note": "seeded C07-4"},
     {"id": "unsorted-hosts", "file": "client.py", "old": "    return sorted(result)", "new": "    return list(result)", "expect": "C07.R9"},
 ]
 TWINS = [
